@@ -184,6 +184,9 @@ def run(src, q):
                      value=alone['info']['value'])
         r.post = None
         r.ndraws = len(sx.cur().draws) if src.symbolic else scripted.calls
+        # the interleaved run starts from the same process-wide state as the run alone did
+        from .. import hidden
+        hidden.restore()
         scb = make_b(w, q)
         pos = q['b_pos']
         state = {}
